@@ -22,7 +22,7 @@ def sub_wf(with_alt):
 def loop_item(rng, n_items, par, outcomes, with_alt=False, delays=None, extra_consumer=False):
     items = [{'id': 'i%d' % k} for k in range(n_items)]
     wf = {'steps': {'loop': {'kind': 'foreach', 'workflow': 'sub.yaml',
-                             'fields': {'items': lit(items), 'parallelism': lit(par)}}},
+                             'fields': dict({'items': lit(items)}, **({'parallelism': lit(par)} if par is not None else {}))}},
           'outputs': {'success': tmap({'d': ref('steps.loop.outputs.success.data')}),
                       'failure': tmap({'e': ref('steps.loop.failed.error')})}}
     if extra_consumer:
@@ -44,7 +44,7 @@ def loop_item(rng, n_items, par, outcomes, with_alt=False, delays=None, extra_co
     return {'wf': wf, 'subwfs': {'sub.yaml': sub_wf(with_alt)}, 'oc': oc, 'script': script, 'input': {'x': 'x', 'n': 1, 'flag': True},
             'schedule': gen.noise_schedule(rng, max_us=300), 'extra': {'timeout_ms': 30000},
             'expect_items': {'loop': [('success' if (outcomes[k] if k < len(outcomes) else 'success') == 'success' else 'fail') for k in range(n_items)]},
-            'at': 'n=%d par=%d %s' % (n_items, par, ','.join(outcomes[:6]))}
+            'at': 'n=%d par=%s %s' % (n_items, par, ','.join(outcomes[:6]))}
 
 
 def items_for(ctx):
@@ -64,6 +64,9 @@ def items_for(ctx):
             outs[rng.randrange(n)] = 'alt'
             items.append(loop_item(rng, n, 2, outs, with_alt=True))
         items.append(loop_item(rng, 3, 2, ['success'] * 3, extra_consumer=True))
+        # no parallelism declared: the documented default is one item at a time
+        items.append(loop_item(rng, 4, None, ['success'] * 4, delays=[12, 8, 10, 6]))
+        items.append(loop_item(rng, 3, None, ['success', 'error', 'success'], delays=[10, 10, 10]))
         return items
     return f
 
